@@ -117,7 +117,11 @@ type GlobalInv struct {
 }
 
 type ContractSet struct {
-	GInvs    []*GlobalInv
+	// LocalAssumes: `assume func` declarations made in a repository package's contract file for
+	// functions of OTHER packages. They are assumptions of that package only: they govern call
+	// sites inside the declaring package and never clash with the callee's own contract.
+	LocalAssumes map[string]map[string]*FuncContract
+	GInvs        []*GlobalInv
 	Funcs    map[string]*FuncContract
 	Ghosts   map[string]*GhostDecl
 	Specs    map[string]*SpecFunc
@@ -284,6 +288,20 @@ func (cs *ContractSet) parseContractText(text, file, pkgPath string) error {
 			}
 			key := resolve(name)
 			cur = &FuncContract{Key: key, Loops: map[int]*LoopContract{}, Trusted: m[1] != "", File: file, Line: ll.line, ParamNames: pnames, DeclPkg: pkgPath}
+			if cur.Trusted && strings.HasSuffix(file, "zz_verif_contracts.go") && !keyInPackage(key, pkgPath) {
+				if cs.LocalAssumes == nil {
+					cs.LocalAssumes = map[string]map[string]*FuncContract{}
+				}
+				if cs.LocalAssumes[pkgPath] == nil {
+					cs.LocalAssumes[pkgPath] = map[string]*FuncContract{}
+				}
+				if old, dup := cs.LocalAssumes[pkgPath][key]; dup {
+					return fail(fmt.Errorf("duplicate local assumption for %s (first at %s:%d)", key, old.File, old.Line))
+				}
+				cs.LocalAssumes[pkgPath][key] = cur
+				cs.Order = append(cs.Order, key)
+				continue
+			}
 			if old, ok := cs.Funcs[key]; ok {
 				return fail(fmt.Errorf("duplicate contract for %s (first at %s:%d)", key, old.File, old.Line))
 			}
@@ -638,4 +656,13 @@ func parseMonitor(s, pkgPath string, imports map[string]string) (*Monitor, error
 		m.Inv = append(m.Inv, Clause{label, e, inv})
 	}
 	return m, nil
+}
+
+// keyInPackage reports whether a function key belongs to the given package path.
+func keyInPackage(key, pkg string) bool {
+	k := key
+	if i := strings.Index(k, "#"); i >= 0 {
+		k = k[:i]
+	}
+	return strings.HasPrefix(k, pkg+".") && !strings.Contains(strings.TrimPrefix(k, pkg+"."), "/")
 }
